@@ -237,6 +237,113 @@ theorem hashOf_full (fvs : List (Field × GoVal)) (hn : (fvs.map (·.1.name)).No
     obtain ⟨fv, hfv, he⟩ := List.mem_filterMap.mp hkv
     exact ⟨fv, hp.mem_iff.mp hfv, entryFull_key fv kv he⟩
 
+/-! ### struct types as terms: promotion of the embedded parent's fields -/
+
+theorem nodupS_nodup : ∀ l : List String, nodupS l = true → l.Nodup
+  | [], _ => List.nodup_nil
+  | a :: r, h => by
+      simp only [nodupS, Bool.and_eq_true, Bool.not_eq_true', List.contains_eq_mem, decide_eq_false_iff_not] at h
+      exact List.nodup_cons.mpr ⟨h.1, nodupS_nodup r h.2⟩
+
+theorem zipFG_append : ∀ (a₁ : List Field) (v₁ : List GoVal) (a₂ : List Field) (v₂ : List GoVal), a₁.length = v₁.length →
+    zipFG (a₁ ++ a₂) (v₁ ++ v₂) = zipFG a₁ v₁ ++ zipFG a₂ v₂
+  | [], [], _, _, _ => rfl
+  | [], _ :: _, _, _, h => by simp at h
+  | _ :: _, [], _, _, h => by simp at h
+  | a :: as, v :: vs, a₂, v₂, h => by
+      simp only [List.cons_append, zipFG, zipFG_append as vs a₂ v₂ (by simpa using h)]
+
+theorem zipFG_fst : ∀ (a : List Field) (v : List GoVal), a.length = v.length → (zipFG a v).map (·.1) = a
+  | [], [], _ => rfl
+  | [], _ :: _, h => by simp at h
+  | _ :: _, [], h => by simp at h
+  | a :: as, v :: vs, h => by simp [zipFG, zipFG_fst as vs (by simpa using h)]
+
+theorem zipFG_snd : ∀ (a : List Field) (v : List GoVal), a.length = v.length → (zipFG a v).map (·.2) = v
+  | [], [], _ => rfl
+  | [], _ :: _, h => by simp at h
+  | _ :: _, [], h => by simp at h
+  | a :: as, v :: vs, h => by simp [zipFG, zipFG_snd as vs (by simpa using h)]
+
+/-- a well-typed struct value has one value per declared field, each of the field's type -/
+theorem decl_typed : ∀ (S : GoTy) (vs : List GoVal), hasType S (.st vs) = true →
+    (declFields S).length = vs.length ∧ ∀ fv ∈ zipFG (declFields S) vs, hasType fv.1.ty fv.2 = true := by
+  intro S
+  induction S with
+  | snil => intro vs h; cases vs <;> simp [hasType] at h; simp [declFields, zipFG]
+  | scons n tg ft rest _ ihr =>
+      intro vs h
+      cases vs with
+      | nil => simp [hasType] at h
+      | cons x xs =>
+        simp only [hasType, Bool.and_eq_true] at h
+        obtain ⟨h1, h2⟩ := ihr xs h.2
+        refine ⟨by simp [declFields, h1], ?_⟩
+        intro fv hfv
+        simp only [declFields, zipFG, List.mem_cons] at hfv
+        rcases hfv with rfl | hfv
+        · simpa [fieldOfDecl] using h.1
+        · exact h2 fv hfv
+  | _ => intro vs h; simp [hasType, scalarHasType] at h
+
+/-- the promoted view: one value per attribute (the parent's first), each of the attribute's Go type -/
+theorem obj_typed : ∀ (S : GoTy) (v : GoVal), hasType S v = true →
+    (attrsOf S).length = (flatVals S v).length ∧ ∀ fv ∈ objFVs S v, hasType fv.1.ty fv.2 = true := by
+  intro S
+  induction S with
+  | scons n tg ft rest ihf _ =>
+      intro v h
+      cases v with
+      | st vs =>
+        cases vs with
+        | nil => simp [hasType] at h
+        | cons x xs =>
+          simp only [hasType, Bool.and_eq_true] at h
+          obtain ⟨d1, d2⟩ := decl_typed rest xs h.2
+          by_cases hc : (tg.anon && isStruct ft) = true
+          · obtain ⟨p1, p2⟩ := ihf x h.1
+            simp only [objFVs, attrsOf, flatVals, hc, if_true]
+            refine ⟨by simp [p1, d1], ?_⟩
+            intro fv hfv
+            rw [zipFG_append _ _ _ _ p1] at hfv
+            rcases List.mem_append.mp hfv with hfv | hfv
+            · exact p2 fv hfv
+            · exact d2 fv hfv
+          · simp only [objFVs, attrsOf, flatVals, hc]
+            refine ⟨by simp [d1], ?_⟩
+            intro fv hfv
+            simp only [Bool.false_eq_true, if_false, zipFG, List.mem_cons] at hfv
+            rcases hfv with rfl | hfv
+            · simpa [fieldOfDecl] using h.1
+            · exact d2 fv hfv
+      | _ => simp [hasType] at h
+  | _ => intro v _; simp [objFVs, attrsOf, flatVals, zipFG]
+
+/-- putting the attribute values back — the embedded parent's into the embedded parent — gives the struct -/
+theorem rebuild_flat : ∀ (S : GoTy) (v : GoVal), isStruct S = true → hasType S v = true → rebuild S (flatVals S v) = v := by
+  intro S
+  induction S with
+  | snil =>
+      intro v _ h
+      cases v with
+      | st fs => cases fs <;> simp [hasType] at h; rfl
+      | _ => simp [hasType] at h
+  | scons n tg ft rest ihf _ =>
+      intro v _ h
+      cases v with
+      | st vs =>
+        cases vs with
+        | nil => simp [hasType] at h
+        | cons x xs =>
+          simp only [hasType, Bool.and_eq_true] at h
+          by_cases hc : (tg.anon && isStruct ft) = true
+          · have hs : isStruct ft = true := by simp only [Bool.and_eq_true] at hc; exact hc.2
+            have hl := (obj_typed ft x h.1).1
+            simp only [rebuild, flatVals, hc, if_true, hl, List.take_left', List.drop_left', ihf x hs h.1]
+          · simp [rebuild, flatVals, hc]
+      | _ => simp [hasType] at h
+  | _ => intro v hs _; simp [isStruct] at hs
+
 /-! ### the constructors -/
 
 /-- what a field must satisfy: flat, well typed, and inside both halves of the bridge property (as a field it goes
